@@ -66,6 +66,14 @@ const UNICODE: &[&str] = &[
     "é", "éa", "é.b", "ü", "語", "語a", "🙂", "🙂x", "aé", "a語", "Ω", "é語", "ñ", "ña", "é-", "é ",
 ];
 
+/// Names that stress escaping and normalisation rather than ordering: control characters,
+/// JSON-special characters, a decomposed accent next to UNICODE's precomposed one, U+FFFD
+/// itself, and a long name.
+const ODD: &[&str] = &[
+    "a\nb", "a\"b", "a\\b", "\u{1}", "a\tb", "\u{7f}", "\u{FFFD}", "e\u{301}", "n-\u{FFFD}", " ", "a\rb", "'",
+    "xxxxxxxxxxxxxxxxxxxxxxxxxxxxxxxxxxxxxxxxxxxxxxxxxxxxxxxxxxxxxxxxxxxxxxxxxxxxxxxxxxxxxxxxxxxxxxxxxxxxxxxxxxxxxxxxxxxxxxxxxxxxxxxxxxxxxxxxxxxxxxxxxxxxxxxxxxxxxxxxxxxxxxxxxxxxxxxxxxxxxxxxxxxxxxxxxxxxxxxx",
+];
+
 pub struct Gen {
     pub r: Rng,
     pub next_cseed: u64,
@@ -113,10 +121,11 @@ impl Gen {
             NameStyle::Ascii => ASCII,
             NameStyle::Ordering => ORDERING,
             NameStyle::Unicode => UNICODE,
-            NameStyle::Mixed => match self.r.below(3) {
-                0 => ASCII,
-                1 => ORDERING,
-                _ => UNICODE,
+            NameStyle::Mixed => match self.r.below(7) {
+                0 | 1 => ASCII,
+                2 | 3 => ORDERING,
+                4 | 5 => UNICODE,
+                _ => ODD,
             },
         };
         loop {
